@@ -1,6 +1,7 @@
 import Rpft.Drv.Json
 import Rpft.Infer
-namespace Rpft.Drv
+namespace Rpft.Drv.InferD
+open Rpft.Drv
 open Lean Rpft Rpft.Infer
 
 def intJ (i : Int) : Json := Json.num (JsonNumber.fromInt i)
@@ -109,4 +110,4 @@ def handleInfer (op : String) (j : Json) : Except String Json := do
   | "infer.fieldname" => do let s ← getStr j "s"; pure (strJ (getFieldName s))
   | _ => throw s!"unknown op {op}"
 
-end Rpft.Drv
+end Rpft.Drv.InferD
